@@ -64,6 +64,8 @@ def empty_graph(cls, directed=None):
     return g
 
 
+PathSeq = z3.DeclareSort("NodeSequence")
+plen = z3.Function("seq_len", PathSeq, I)
 SetA = set_sort(Atom)
 IA = z3.Datatype("IndAssertion")
 IA.declare("mk", ("event1", SetA), ("event2", SetA), ("event3", SetA))
@@ -121,6 +123,21 @@ class PathTheory:
         hyp = z3.And(z3.ForAll([a], Rf(a, a)), z3.ForAll([a, b, c], z3.Implies(z3.And(Rf(a, b), E[b, c]), Rf(a, c))))
         return z3.Implies(hyp, z3.ForAll([a, b], z3.Implies(P(a, b), Rf(a, b))))
 
+    def simple_paths(self, E):
+        """nx.all_simple_paths(G, u, v) as a function (u, v) -> set of node sequences, axiomatised for acyclic G."""
+        k = ("sp", E.get_id())
+        if k not in self.rels:
+            F = z3.Function(f"SimplePaths!{len(self.rels)}", Atom, Atom, set_sort(PathSeq))
+            P = self.path(E)
+            u, v, w, p = fresh("u", Atom), fresh("v", Atom), fresh("w", Atom), fresh("p", PathSeq)
+            ax = z3.ForAll([u, v], z3.Implies(u != v, z3.And(
+                z3.ForAll([p], z3.Implies(F(u, v)[p], plen(p) >= 2)),
+                z3.Exists([p], z3.And(F(u, v)[p], plen(p) > 2)) == z3.Exists([w], z3.And(E[u, w], w != v, P(w, v))),
+                z3.Exists([p], F(u, v)[p]) == P(u, v))))
+            self.ex.axioms.append(z3.Implies(self.acyclic(E), ax))
+            self.rels[k] = (E, F)
+        return self.rels[k][1]
+
     def acyclic(self, E):
         a, b = fresh("a", Atom), fresh("b", Atom)
         return z3.ForAll([a, b], z3.Implies(E[a, b], z3.Not(self.path(E)(b, a))))
@@ -162,6 +179,8 @@ class Lib:
             return ClassV(name)
         if name == "logger":
             return ModuleV("logger")
+        if name in ("permutations", "combinations", "product", "chain"):
+            return ModuleV("itertools." + name)
         return None
 
     # ---- objects
@@ -255,25 +274,38 @@ class Lib:
         return f(z)
 
     def card(self, ex, c, st):
+        """|S| of a duplicate-free collection: uninterpreted function on characteristic arrays with background
+        axioms (quantified over all arrays, triggered by card(S)):  n >= 0,  n = 0 <=> empty,  n = 1 <=> singleton,
+        extensional congruence, and |S u {x}| = |S| + 1 for x notin S."""
         key = str(c.esort)
         if key not in self.card_fns:
             self.card_fns[key] = z3.Function(f"card_{key}", set_sort(c.esort), I)
-        n = self.card_fns[key](c.mem)
-        x, y = fresh("x", c.esort), fresh("y", c.esort)
-        st.assume(n >= 0)
-        st.assume((n == 0) == z3.Not(z3.Exists([x], c.mem[x])))
-        if c.nodup:
-            st.assume((n == 1) == z3.Exists([x], z3.ForAll([y], c.mem[y] == (y == x))))
-        else:
-            st.assume(z3.Implies(n == 1, z3.Exists([x], z3.ForAll([y], c.mem[y] == (y == x)))))
-        ex.used_lib.add("len(): uninterpreted cardinality with axioms n>=0, n=0 <=> empty, n=1 <=> singleton")
-        return n
+        d = self.card_fns[key]
+        if (id(ex), key) not in self.__dict__.setdefault("_card_ax", set()):
+            self._card_ax.add((id(ex), key))
+            A, Bq = fresh("ca", set_sort(c.esort)), fresh("cb", set_sort(c.esort))
+            x, y = fresh("x", c.esort), fresh("y", c.esort)
+            ex.axioms.append(z3.ForAll([A, Bq], z3.Implies(z3.ForAll([x], A[x] == Bq[x]), d(A) == d(Bq)),
+                                       patterns=[z3.MultiPattern(d(A), d(Bq))]))
+            ex.axioms.append(z3.ForAll([A], z3.And(d(A) >= 0,
+                                                   (d(A) == 0) == z3.Not(z3.Exists([x], A[x])),
+                                                   (d(A) == 1) == z3.Exists([x], z3.ForAll([y], A[y] == (y == x)))),
+                                       patterns=[d(A)]))
+            ex.axioms.append(z3.ForAll([A, x], z3.Implies(z3.Not(A[x]), d(z3.Store(A, x, True)) == d(A) + 1),
+                                       patterns=[d(z3.Store(A, x, True))]))
+            ex.used_lib.add("len(): uninterpreted cardinality with axioms n>=0, n=0 <=> empty, n=1 <=> singleton, |S+x| = |S|+1")
+        return d(c.mem)
 
     def ensure_order(self, ex):
         if not getattr(ex, "_order_added", False):
             ex.axioms += order_axioms()
             ex._order_added = True
             ex.assumed.add("sorted(): names are totally ordered by an uninterpreted total order (mixed-type names that do not compare are outside the model)")
+
+    def len_hook(self, ex, v, st):
+        if isinstance(v, Scalar) and v.z.sort() == PathSeq:
+            return plen(v.z)
+        return None
 
     def sorted_(self, ex, v, st):
         items = v.items if isinstance(v, (TupleV, Coll)) else None
@@ -348,6 +380,14 @@ class Lib:
             return Coll("iter", Atom, z3.Lambda([x], P(u, x)), nodup=True)
         if name.startswith("logger."):
             return NONE
+        if name in ("nx.all_simple_paths",):
+            g, u, v = args[0], z3_of(args[1]), z3_of(args[2])
+            ex.oblige(st, z3.And(N_(g, u), N_(g, v)), "call.nx.all_simple_paths.nodes-present")
+            # contract (directed ACYCLIC graphs, u != v): the result is a collection of node sequences, each of
+            # length >= 2, and one of them is longer than 2 iff some path u -> w ~> v avoids the direct edge
+            ex.oblige(st, z3.And(self.theory(ex).acyclic(g.fields["_E"]), u != v), "call.nx.all_simple_paths.acyclic-graph")
+            SP = self.theory(ex).simple_paths(g.fields["_E"])(u, v)
+            return Coll("iter", PathSeq, SP, nodup=True)
         return NotImplemented
 
     # ---- methods
